@@ -405,6 +405,7 @@ def reduceTail (neg : Bool) (r3 : Nat × Int × Nat × Bool) : Dec :=
 def reduceLow (r1 : Nat × Int × Nat × Bool) : Nat × Int × Nat × Bool :=
   dropLow (min ((EMIN - r1.2.1).toNat + 1) 60) r1.1 r1.2.1 r1.2.2.1 r1.2.2.2
 
+seal dropHigh dropLow scaleUp roundEven normalize in
 theorem reduce_eq (neg : Bool) (c : Nat) (e : Int) (st : Bool) :
     reduce neg c e st = if c = 0 ∧ ¬ st then .fin neg 0 0 else
       reduceTail neg (if (reduceLow (dropHigh (Nat.log2 (c + 1) + 2) c e 0 st)).2.1 < EMIN then (0, EMIN, 0, true)
@@ -501,7 +502,150 @@ theorem parse_bounded {t : Bytes} {d : Dec} (h : parse t = .ok d) : d.Bounded :=
           · simp only [h4] at h
             exact parseNumber_bounded h
 
+/-! ### integer-valued decimals -/
+
+/-- the integer `(-1)^n · v` -/
+def intVal (n : Bool) (v : Nat) : Int := if n then -(v : Int) else v
+
+theorem cmpFin_int_iff (i : Int) (n : Bool) (v : Nat) :
+    cmpFin (decide (i < 0)) i.natAbs 0 n v 0 = 0 ↔ i = intVal n v := by
+  rw [cmpFin_eq_zero_iff]
+  simp only [sval, pow10, intVal]
+  have : ((0 : Int) - min 0 0).toNat = 0 := by omega
+  rw [this]
+  simp only [Nat.pow_zero, Nat.mul_one]
+  cases n <;> by_cases hi : i < 0 <;> simp [hi] <;> omega
+
+theorem cmp_ofInt_fin_iff (i : Int) (n : Bool) (v : Nat) : cmp (ofInt i) (.fin n v 0) = some 0 ↔ i = intVal n v := by
+  rw [← cmpFin_int_iff]
+  constructor
+  · intro h
+    have := cmp_zero_trans (cmp_zero_symm (cmp_ofInt i)) h
+    simpa [cmp] using this
+  · intro h
+    exact cmp_zero_trans (cmp_ofInt i) (by simpa [cmp] using h)
+
+theorem ofInt_ne_nan (i : Int) : ofInt i ≠ .nan := ne_nan_of_cmp_left (cmp_ofInt i)
+
+theorem cmp_ofInt_ofInt_iff (i j : Int) : cmp (ofInt i) (ofInt j) = some 0 ↔ i = j := by
+  constructor
+  · intro h
+    have := (cmp_ofInt_fin_iff i _ _).mp (cmp_zero_trans h (cmp_ofInt j))
+    rw [this]; unfold intVal; by_cases hj : j < 0 <;> simp [hj] <;> omega
+  · intro h; subst h; exact cmp_self (ofInt_ne_nan i)
+
+/-- `decToInt` of a decimal (within the format) whose value is the integer `j` -/
+theorem decToInt_of_int_value {d : Dec} {j : Int} (hb : d.Bounded) (hv : cmp (ofInt j) d = some 0) :
+    decToInt d = if -(2 ^ 63 : Int) ≤ j ∧ j ≤ 2 ^ 63 - 1 then .int j else .notInt := by
+  split
+  · next hr => exact decToInt_of_value hb hr hv
+  · next hr =>
+    rcases decToInt_cases d with h | ⟨i, h⟩
+    · exact h
+    · have ⟨hr', hv'⟩ := decToInt_int h
+      have := (cmp_ofInt_ofInt_iff i j).mp (cmp_zero_trans hv' (cmp_zero_symm hv))
+      subst this
+      exact absurd hr' hr
+
+theorem decToInt_ofInt {j : Int} (hb : j.natAbs ≤ MAXSIG) :
+    decToInt (ofInt j) = if -(2 ^ 63 : Int) ≤ j ∧ j ≤ 2 ^ 63 - 1 then .int j else .notInt :=
+  decToInt_of_int_value (ofInt_bounded hb) (cmp_self (ofInt_ne_nan j))
+
+theorem decToInt_normalize_int (n : Bool) (v : Nat) (hb : v ≤ MAXSIG) :
+    decToInt (normalize (.fin n v 0)) =
+      if -(2 ^ 63 : Int) ≤ intVal n v ∧ intVal n v ≤ 2 ^ 63 - 1 then .int (intVal n v) else .notInt :=
+  decToInt_of_int_value (normalize_bounded (d := .fin n v 0) hb)
+    (cmp_zero_trans ((cmp_ofInt_fin_iff _ n v).mpr rfl) (cmp_normalize' n v 0))
+
 end Dec
+
+/-! ### `json.Number`: `strconv.ParseInt` agrees with the decimal reading -/
+
+theorem parseInt64_digits {neg : Bool} {d : Bytes} {i : Int}
+    (h : (if d.isEmpty then none
+     else if d.all Dec.isDigit then
+       (if neg then (if Dec.dval 0 d > 2 ^ 63 then none else some (-(Dec.dval 0 d : Int)))
+        else (if Dec.dval 0 d > 2 ^ 63 - 1 then none else some (Dec.dval 0 d : Int)))
+     else none) = some i) :
+    d ≠ [] ∧ (∀ x ∈ d, Dec.isDigit x = true) ∧ i = Dec.intVal neg (Dec.dval 0 d) ∧ Dec.Int64Range i := by
+  unfold Dec.Int64Range Dec.intVal
+  cases d with
+  | nil => simp at h
+  | cons b ds =>
+    simp only [List.isEmpty_cons, Bool.false_eq_true, if_false] at h
+    by_cases hd : (b :: ds).all Dec.isDigit = true
+    · have hd' : ∀ x ∈ b :: ds, Dec.isDigit x = true := by simpa using hd
+      simp only [hd, if_true] at h
+      refine ⟨by simp, hd', ?_⟩
+      cases neg
+      · simp only [Bool.false_eq_true, if_false] at h ⊢
+        split at h
+        · cases h
+        · cases h; exact ⟨rfl, by omega, by omega⟩
+      · simp only [if_true] at h ⊢
+        split at h
+        · cases h
+        · cases h; exact ⟨rfl, by omega, by omega⟩
+    · simp only [hd, Bool.false_eq_true, if_false] at h
+      cases h
+
+theorem parseInt64_some {t : Bytes} {i : Int} (h : parseInt64 t = some i) :
+    ∃ (neg : Bool) (b : Nat) (ds : Bytes), (∀ x ∈ b :: ds, Dec.isDigit x = true) ∧
+      (t = b :: ds ∧ neg = false ∨ t = 0x2B :: b :: ds ∧ neg = false ∨ t = 0x2D :: b :: ds ∧ neg = true) ∧
+      i = Dec.intVal neg (Dec.dval 0 (b :: ds)) ∧ Dec.Int64Range i := by
+  unfold parseInt64 at h
+  split at h
+  next x neg d heq =>
+  have ⟨h1, h2, h3, h4⟩ := parseInt64_digits (neg := neg) (d := d) h
+  cases d with
+  | nil => exact absurd rfl h1
+  | cons b ds =>
+    refine ⟨neg, b, ds, h2, ?_, h3, h4⟩
+    split at heq
+    · cases heq; exact .inr (.inl ⟨rfl, rfl⟩)
+    · cases heq; exact .inr (.inr ⟨rfl, rfl⟩)
+    · cases heq; exact .inl ⟨rfl, rfl⟩
+
+theorem Dec.parse_plus_digit_head (b : Nat) (rest : Bytes) (hb : Dec.isDigit b = true) :
+    Dec.parse (0x2B :: b :: rest) = Dec.parseNumber (b :: rest) false true := by
+  have hb' := (Dec.isDigit_iff b).mp hb
+  have hl : Dec.lowerByte b = b := by simp [Dec.lowerByte]; omega
+  have h3 : b ≠ 0x69 := by omega
+  have h4 : b ≠ 0x6E := by omega
+  simp [Dec.parse, hl, h3, h4]
+
+/-- a run of digits (value within the format) is read exactly -/
+theorem Dec.parseNumber_int_text (neg : Bool) (b : Nat) (ds : Bytes) (hd : ∀ x ∈ b :: ds, Dec.isDigit x = true)
+    (hv : Dec.dval 0 (b :: ds) ≤ Dec.MAXSIG) :
+    Dec.parseNumber (b :: ds) neg true = .ok (Dec.normalize (.fin neg (Dec.dval 0 (b :: ds)) 0)) := by
+  have := Dec.parseNumber_mant (b :: ds) (Dec.dval 0 (b :: ds)) 0 false neg true
+    (Dec.prun_int true b ds hd (Nat.le_trans hv Dec.MAXSIG_le_PFULL)) hv (by decide) (by decide)
+  simpa using this
+
+theorem Dec.two63_le_MAXSIG : 2 ^ 63 ≤ Dec.MAXSIG := by decide
+theorem Dec.two64_le_MAXSIG : 2 ^ 64 ≤ Dec.MAXSIG := by decide
+
+/-- when `strconv.ParseInt` accepts the text of a `json.Number`, `decimal128.Parse` reads the same integer -/
+theorem jnum_parseInt64 {t : Bytes} {i : Int} (h : parseInt64 t = some i) :
+    ∃ d, Dec.parse t = .ok d ∧ decToInt d = .int i ∧ Dec.cmp (Dec.ofInt i) d = some 0 := by
+  obtain ⟨neg, b, ds, hd, ht, hi, hr⟩ := parseInt64_some h
+  have hr' := hr
+  unfold Dec.Int64Range at hr'
+  have hv : Dec.dval 0 (b :: ds) ≤ Dec.MAXSIG := by
+    have := Dec.two63_le_MAXSIG
+    rw [hi] at hr'
+    unfold Dec.intVal at hr'
+    cases neg <;> simp at hr' <;> omega
+  have hb : Dec.isDigit b = true := hd b (List.mem_cons_self ..)
+  have hp : Dec.parse t = .ok (Dec.normalize (.fin neg (Dec.dval 0 (b :: ds)) 0)) := by
+    rcases ht with ⟨rfl, rfl⟩ | ⟨rfl, rfl⟩ | ⟨rfl, rfl⟩
+    · rw [Dec.parse_digit_head b ds hb, Dec.parseNumber_int_text false b ds hd hv]
+    · rw [Dec.parse_plus_digit_head b ds hb, Dec.parseNumber_int_text false b ds hd hv]
+    · rw [Dec.parse_minus_digit_head b ds hb, Dec.parseNumber_int_text true b ds hd hv]
+  refine ⟨_, hp, ?_, ?_⟩
+  · rw [Dec.decToInt_normalize_int neg _ hv, ← hi, if_pos hr']
+  · rw [hi]
+    exact Dec.cmp_zero_trans ((Dec.cmp_ofInt_fin_iff _ neg _).mpr rfl) (Dec.cmp_normalize' neg _ 0)
 
 theorem F64.toDec_bounded (f : F64) : f.toDec.Bounded := by
   cases f with
@@ -509,4 +653,1244 @@ theorem F64.toDec_bounded (f : F64) : f.toDec.Bounded := by
   | inf n => simp [F64.toDec, Dec.Bounded]
   | fin n m e => exact Dec.ofBinary_bounded n m e
 
+
+/-! ### binary floats whose value is exactly representable as a decimal -/
+namespace F64
+
+/-- the invariant of the model's floats: the significand is odd, or the value is zero (`m = 0 ∧ e = 0`) -/
+def Odd : F64 → Prop
+  | .fin _ m e => m % 2 = 1 ∨ (m = 0 ∧ e = 0)
+  | _ => True
+
+/-- the conversion to decimal128 is exact: `m·2^e` (resp. `m·5^(-e)·10^e`) fits the format -/
+def DecExact : F64 → Prop
+  | .fin _ m e => (0 ≤ e → m * 2 ^ e.toNat ≤ Dec.MAXSIG) ∧ (e < 0 → m * 5 ^ (-e).toNat ≤ Dec.MAXSIG ∧ Dec.EMIN ≤ e)
+  | _ => True
+
+theorem toDec_nonneg_exp (n : Bool) (m : Nat) (e : Int) (he : 0 ≤ e) (hx : m * 2 ^ e.toNat ≤ Dec.MAXSIG) :
+    toDec (.fin n m e) = Dec.normalize (.fin n (m * 2 ^ e.toNat) 0) := by
+  simp only [toDec, Dec.ofBinary]
+  by_cases hm : m = 0
+  · subst hm; simp [Dec.normalize_zero]
+  · simp only [hm, if_false, ge_iff_le, he, if_true]
+    exact Dec.reduce_exact n _ 0 hx (by decide) (by decide)
+
+theorem toDec_neg_exp (n : Bool) (m : Nat) (e : Int) (he : e < 0) (hx : m * 5 ^ (-e).toNat ≤ Dec.MAXSIG)
+    (hlo : Dec.EMIN ≤ e) : toDec (.fin n m e) = Dec.normalize (.fin n (m * 5 ^ (-e).toNat) e) := by
+  simp only [toDec, Dec.ofBinary]
+  by_cases hm : m = 0
+  · subst hm; simp [Dec.normalize_zero]
+  · have : ¬ (e ≥ 0) := by omega
+    simp only [hm, if_false, this]
+    exact Dec.reduce_exact n _ e hx hlo (by unfold Dec.EMAX; omega)
+
+/-- the float holding the integer `(-1)^n·v` exactly: its decimal has that value -/
+theorem toDec_value_int (n : Bool) (m : Nat) (e : Int) (he : 0 ≤ e) (hx : m * 2 ^ e.toNat ≤ Dec.MAXSIG) :
+    Dec.cmp (Dec.ofInt (Dec.intVal n (m * 2 ^ e.toNat))) (toDec (.fin n m e)) = some 0 := by
+  rw [toDec_nonneg_exp n m e he hx]
+  exact Dec.cmp_zero_trans ((Dec.cmp_ofInt_fin_iff _ n _).mpr rfl) (Dec.cmp_normalize' n _ 0)
+
+theorem pow2_cancel {m a b : Nat} (h : m * 2 ^ a = 2 ^ b) (hodd : m % 2 = 1) : m = 1 ∧ a = b := by
+  have hab : a ≤ b := by
+    apply Nat.le_of_not_lt
+    intro hlt
+    have : 2 ^ a = 2 ^ b * 2 ^ (a - b) := by rw [← Nat.pow_add]; congr 1; omega
+    rw [this, ← Nat.mul_assoc, Nat.mul_comm m, Nat.mul_assoc] at h
+    have hp : 0 < 2 ^ b := Nat.pow_pos (by decide)
+    have h1 : m * 2 ^ (a - b) = 1 := Nat.eq_of_mul_eq_mul_left hp (by rw [h]; simp)
+    have : 2 ^ (a - b) = 2 * 2 ^ (a - b - 1) := by rw [← Nat.pow_succ']; congr 1; omega
+    rw [this] at h1
+    have : m * (2 * 2 ^ (a - b - 1)) = 2 * (m * 2 ^ (a - b - 1)) := by
+      rw [← Nat.mul_assoc, Nat.mul_comm m 2, Nat.mul_assoc]
+    omega
+  have hb : 2 ^ b = 2 ^ (b - a) * 2 ^ a := by rw [← Nat.pow_add]; congr 1; omega
+  rw [hb] at h
+  have hm : m = 2 ^ (b - a) := Nat.eq_of_mul_eq_mul_right (Nat.pow_pos (by decide)) h
+  by_cases hz : b - a = 0
+  · rw [hz] at hm; exact ⟨by simpa using hm, by omega⟩
+  · have : 2 ^ (b - a) = 2 * 2 ^ (b - a - 1) := by rw [← Nat.pow_succ']; congr 1; omega
+    omega
+
+/-- **the float branch of `toInt` agrees with the decimal branch** on floats that convert exactly, except at the
+    single value `2^63` (where Go's float→int conversion on amd64 yields `-2^63`) -/
+theorem toInt_eq_decToInt (f : F64) (hodd : f.Odd) (hex : f.DecExact) (hne : f ≠ .fin false 1 63) :
+    (match f.toInt with | some i => ToInt.int i | none => ToInt.notInt) = decToInt f.toDec := by
+  cases f with
+  | nan => simp [toInt, toDec, decToInt, Dec.isNaN]
+  | inf n => simp [toInt, toDec, decToInt, Dec.isNaN, Dec.int64]
+  | fin n m e =>
+    simp only [Odd] at hodd
+    simp only [DecExact] at hex
+    by_cases he : e < 0
+    · -- a proper dyadic fraction: not an integer
+      have hm : m % 2 = 1 := by omega
+      obtain ⟨hx, hlo⟩ := hex.2 he
+      rw [toDec_neg_exp n m e he hx hlo]
+      simp only [toInt, he, if_true]
+      rcases Dec.decToInt_cases (Dec.normalize (.fin n (m * 5 ^ (-e).toNat) e)) with h | ⟨i, h⟩
+      · rw [h]
+      · exfalso
+        have ⟨_, hv⟩ := Dec.decToInt_int h
+        have h2 := Dec.cmp_zero_trans (Dec.cmp_zero_trans (Dec.cmp_zero_symm (Dec.cmp_ofInt i)) hv) (Dec.cmp_normalize n _ e)
+        simp only [Dec.cmp, Option.some.injEq] at h2
+        rw [Dec.cmpFin_eq_zero_iff_value _ _ _ _ _ _ e (by omega) (by omega)] at h2
+        simp only [Dec.sval, Dec.pow10] at h2
+        have h1 : ((0 : Int) - e).toNat = (-e).toNat := by omega
+        have h0 : (e - e).toNat = 0 := by omega
+        rw [h1, h0] at h2
+        simp only [Nat.pow_zero, Nat.mul_one] at h2
+        obtain ⟨k, hk⟩ : ∃ k, (-e).toNat = k + 1 := ⟨(-e).toNat - 1, by omega⟩
+        rw [hk] at h2
+        have h10 : (10 : Nat) ^ (k + 1) = 2 * 2 ^ k * 5 ^ (k + 1) := by
+          rw [show (10 : Nat) = 2 * 5 from rfl, Nat.mul_pow, Nat.pow_succ' (n := k)]
+        have habs : i.natAbs * 10 ^ (k + 1) = m * 5 ^ (k + 1) := by
+          have : ((i.natAbs * 10 ^ (k + 1) : Nat) : Int) = ((m * 5 ^ (k + 1) : Nat) : Int) ∨
+              ((i.natAbs * 10 ^ (k + 1) : Nat) : Int) = -((m * 5 ^ (k + 1) : Nat) : Int) := by
+            revert h2; cases n <;> by_cases hi : i < 0 <;> simp [hi] <;> omega
+          omega
+        rw [h10, ← Nat.mul_assoc] at habs
+        have := Nat.eq_of_mul_eq_mul_right (Nat.pow_pos (by decide)) habs
+        have : i.natAbs * (2 * 2 ^ k) = 2 * (i.natAbs * 2 ^ k) := by
+          rw [← Nat.mul_assoc, Nat.mul_comm i.natAbs 2, Nat.mul_assoc]
+        omega
+    · have he' : 0 ≤ e := by omega
+      have hx := hex.1 he'
+      have hv := toDec_value_int n m e he' hx
+      rw [Dec.decToInt_of_int_value (toDec_bounded _) hv]
+      simp only [toInt, he, if_false]
+      have hP : 0 < 2 ^ e.toNat := Nat.pow_pos (by decide)
+      by_cases h63 : e > 63
+      · simp only [h63, if_true]
+        have hm : m % 2 = 1 := by omega
+        have : 2 ^ 64 ≤ 2 ^ e.toNat := Nat.pow_le_pow_right (by decide) (by omega)
+        have : 2 ^ e.toNat ≤ m * 2 ^ e.toNat := Nat.le_mul_of_pos_left _ (by omega)
+        have hbig : 2 ^ 64 ≤ m * 2 ^ e.toNat := by omega
+        generalize m * 2 ^ e.toNat = v at hbig ⊢
+        rw [if_neg]
+        unfold Dec.intVal
+        cases n <;> simp <;> omega
+      · simp only [h63, if_false]
+        generalize hV : m * 2 ^ e.toNat = v at *
+        unfold Dec.intVal
+        cases n
+        · simp only [Bool.false_eq_true, if_false]
+          by_cases h1 : v > 2 ^ 63
+          · simp only [h1, if_true]; rw [if_neg]; omega
+          · simp only [h1, if_false]
+            by_cases h2 : v = 2 ^ 63
+            · exfalso
+              rw [h2] at hV
+              rcases hodd with hm | ⟨hm, _⟩
+              · have ⟨a, b⟩ := pow2_cancel hV hm
+                apply hne; rw [a]; congr 1; omega
+              · rw [hm] at hV; simp at hV
+            · simp only [h2, if_false]; rw [if_pos]; omega
+        · simp only [if_true]
+          by_cases h1 : v > 2 ^ 63
+          · simp only [h1, if_true]; rw [if_neg]; omega
+          · simp only [h1, if_false]; rw [if_pos]; omega
+
+end F64
+
+/-! ### numbers: well-formed representations, and `toInt` through the decimal -/
+
+/-- the Go integer kind can hold `v` -/
+def IntKind.InRange : IntKind → Int → Prop
+  | .i8, v => -(2 ^ 7 : Int) ≤ v ∧ v < 2 ^ 7
+  | .i16, v => -(2 ^ 15 : Int) ≤ v ∧ v < 2 ^ 15
+  | .i32, v => -(2 ^ 31 : Int) ≤ v ∧ v < 2 ^ 31
+  | .i64, v => -(2 ^ 63 : Int) ≤ v ∧ v < 2 ^ 63
+  | .int, v => -(2 ^ 63 : Int) ≤ v ∧ v < 2 ^ 63
+  | .u8, v => 0 ≤ v ∧ v < 2 ^ 8
+  | .u16, v => 0 ≤ v ∧ v < 2 ^ 16
+  | .u32, v => 0 ≤ v ∧ v < 2 ^ 32
+  | .u64, v => 0 ≤ v ∧ v < 2 ^ 64
+  | .uint, v => 0 ≤ v ∧ v < 2 ^ 64
+
+theorem IntKind.InRange.natAbs_lt {k : IntKind} {v : Int} (h : k.InRange v) : v.natAbs < 2 ^ 64 := by
+  cases k <;> simp only [IntKind.InRange] at h <;> omega
+
+/-- a float as Go can hold it and whose conversion to decimal128 is exact, `2^63` excluded -/
+def F64.Good (f : F64) : Prop := f.Odd ∧ f.DecExact ∧ f ≠ .fin false 1 63
+
+/-- a number as a Go program can hold it (integer within its kind, decimal coefficient within the format,
+    normalised float), every intermediate conversion being exact -/
+def Num.Good : Num → Prop
+  | .jnum _ => True
+  | .dec d => d.Bounded
+  | .int k v => k.InRange v
+  | .f64 f => f.Good
+  | .f32 f => f.Good
+
+theorem toDecimal_bounded {a : Num} {d : Dec} (hg : a.Good) (h : toDecimal (.num a) = some d) : d.Bounded := by
+  cases a with
+  | jnum t =>
+    simp only [toDecimal] at h
+    split at h
+    · next hp => cases h; exact Dec.parse_bounded hp
+    · cases h
+  | dec d' => simp only [toDecimal] at h; cases h; exact hg
+  | int k v =>
+    simp only [toDecimal] at h; cases h
+    have := IntKind.InRange.natAbs_lt (show k.InRange v from hg)
+    exact Dec.ofInt_bounded (by have := Dec.two64_le_MAXSIG; omega)
+  | f64 f => simp only [toDecimal] at h; cases h; exact F64.toDec_bounded f
+  | f32 f => simp only [toDecimal] at h; cases h; exact F64.toDec_bounded f
+
+/-- **`toInt` is `decToInt` of the decimal value**, whatever the representation -/
+theorem toInt_eq_decToInt {a : Num} {d : Dec} (hg : a.Good) (h : toDecimal (.num a) = some d) :
+    toInt (.num a) = decToInt d := by
+  cases a with
+  | jnum t =>
+    simp only [toDecimal] at h
+    split at h
+    · next d' hp =>
+      cases h
+      simp only [toInt]
+      cases hi : parseInt64 t with
+      | none => simp only [hp]
+      | some i =>
+        obtain ⟨d'', hp', hd, _⟩ := jnum_parseInt64 hi
+        rw [hp] at hp'; cases hp'
+        simp only [hd]
+    · cases h
+  | dec d' => simp only [toDecimal] at h; cases h; rfl
+  | int k v =>
+    simp only [toDecimal] at h; cases h
+    have hlt := IntKind.InRange.natAbs_lt (show k.InRange v from hg)
+    rw [Dec.decToInt_ofInt (by have := Dec.two64_le_MAXSIG; omega)]
+    have hg' : k.InRange v := hg
+    cases k <;> simp only [IntKind.InRange] at hg' <;> simp only [toInt]
+    case u64 =>
+      split
+      · rw [if_neg (by omega)]
+      · rw [if_pos (by omega)]
+    case uint =>
+      split
+      · rw [if_neg (by omega)]
+      · rw [if_pos (by omega)]
+    all_goals rw [if_pos (by omega)]
+  | f64 f => simp only [toDecimal] at h; cases h; exact F64.toInt_eq_decToInt f hg.1 hg.2.1 hg.2.2
+  | f32 f => simp only [toDecimal] at h; cases h; exact F64.toInt_eq_decToInt f hg.1 hg.2.1 hg.2.2
+
+/-- two numbers denote the same value: both convert to decimals that compare equal (so neither is NaN) -/
+def Num.SameValue (a b : Num) : Prop :=
+  ∃ da db, toDecimal (.num a) = some da ∧ toDecimal (.num b) = some db ∧ Dec.cmp da db = some 0
+
+/-- the number converts to a decimal other than NaN (`SameValue a a`) -/
+def Num.Valued (a : Num) : Prop := ∃ d, toDecimal (.num a) = some d ∧ d ≠ .nan
+
+theorem Num.SameValue.refl {a : Num} (h : a.Valued) : Num.SameValue a a := by
+  obtain ⟨d, h1, h2⟩ := h
+  exact ⟨d, d, h1, h1, Dec.cmp_self h2⟩
+
+theorem Num.SameValue.symm {a b : Num} (h : Num.SameValue a b) : Num.SameValue b a := by
+  obtain ⟨da, db, h1, h2, h3⟩ := h
+  exact ⟨db, da, h2, h1, Dec.cmp_zero_symm h3⟩
+
+theorem Num.SameValue.trans {a b c : Num} (h : Num.SameValue a b) (h' : Num.SameValue b c) : Num.SameValue a c := by
+  obtain ⟨da, db, h1, h2, h3⟩ := h
+  obtain ⟨db', dc, h4, h5, h6⟩ := h'
+  rw [h2] at h4; cases h4
+  exact ⟨da, dc, h1, h5, Dec.cmp_zero_trans h3 h6⟩
+
+theorem Num.SameValue.valued_left {a b : Num} (h : Num.SameValue a b) : a.Valued := by
+  obtain ⟨da, db, h1, h2, h3⟩ := h
+  exact ⟨da, h1, Dec.ne_nan_of_cmp_left h3⟩
+
+theorem Num.SameValue.valued_right {a b : Num} (h : Num.SameValue a b) : b.Valued := h.symm.valued_left
+
+theorem Num.sameValue_self_iff {a : Num} : Num.SameValue a a ↔ a.Valued :=
+  ⟨fun h => h.valued_left, Num.SameValue.refl⟩
+
+
+/-! ### the canonical decimal text of an integer, read back as a `json.Number` -/
+namespace Dec
+
+theorem digitsOfAux_spec : ∀ (fuel n : Nat) (acc : List Nat), n < 10 ^ fuel →
+    ∃ ds, digitsOfAux fuel n acc = ds ++ acc ∧ (∀ x ∈ ds, isDigit x = true) ∧
+      (∀ a0, dval a0 ds = a0 * 10 ^ ds.length + n) ∧ (n ≠ 0 → ds ≠ [])
+  | 0, n, acc, h => by
+    have : n = 0 := by simpa using h
+    subst this
+    exact ⟨[], by simp [digitsOfAux], by simp, by simp [dval], by simp⟩
+  | fuel + 1, n, acc, h => by
+    unfold digitsOfAux
+    by_cases hn : n = 0
+    · subst hn
+      exact ⟨[], by simp, by simp, by simp [dval], by simp⟩
+    · simp only [hn, if_false]
+      obtain ⟨ds, h1, h2, h3, _⟩ := digitsOfAux_spec fuel (n / 10) ((0x30 + n % 10) :: acc)
+        (by rw [Nat.pow_succ] at h; omega)
+      refine ⟨ds ++ [0x30 + n % 10], by rw [h1]; simp, ?_, ?_, by simp⟩
+      · intro x hx
+        rcases List.mem_append.mp hx with hx | hx
+        · exact h2 x hx
+        · have : x = 0x30 + n % 10 := by simpa using hx
+          rw [this, isDigit_iff]; omega
+      · intro a0
+        rw [dval_append, h3, dval_cons, dval_nil, List.length_append, List.length_singleton, Nat.pow_succ]
+        have : 48 + n % 10 - 48 = n % 10 := by omega
+        rw [this, Nat.add_mul, Nat.mul_assoc]
+        omega
+
+theorem lt_pow10_log2' (n : Nat) : n < 10 ^ (Nat.log2 n + 2) := by
+  have h1 : n < 2 ^ (Nat.log2 n + 1) := Nat.lt_log2_self
+  have h2 : 2 ^ (Nat.log2 n + 1) ≤ 10 ^ (Nat.log2 n + 1) := Nat.pow_le_pow_left (by decide) _
+  have h3 : 10 ^ (Nat.log2 n + 1) ≤ 10 ^ (Nat.log2 n + 2) := pow10_ge (by omega)
+  omega
+
+/-- `natToBytes n` is a non-empty run of digits whose value is `n` -/
+theorem natToBytes_spec (n : Nat) :
+    ∃ b ds, natToBytes n = b :: ds ∧ (∀ x ∈ b :: ds, isDigit x = true) ∧ dval 0 (b :: ds) = n := by
+  unfold natToBytes
+  by_cases hn : n = 0
+  · subst hn; exact ⟨0x30, [], by simp, by simp [isDigit], by simp [dval]⟩
+  · simp only [hn, if_false]
+    obtain ⟨ds, h1, h2, h3, h4⟩ := digitsOfAux_spec (Nat.log2 n + 2) n [] (lt_pow10_log2' n)
+    simp only [List.append_nil] at h1
+    cases ds with
+    | nil => exact absurd rfl (h4 hn)
+    | cons b ds => exact ⟨b, ds, h1, h2, by simpa using h3 0⟩
+
+end Dec
+
+/-- **`json.Number` holding the canonical text of the integer `v`** (as `strconv.Itoa`/`json.Marshal` print it)
+    converts to a decimal of value `v` -/
+theorem toDecimal_jnum_intToBytes (v : Int) (hv : v.natAbs ≤ Dec.MAXSIG) :
+    ∃ d, toDecimal (.num (.jnum (Json.intToBytes v))) = some d ∧ Dec.cmp (Dec.ofInt v) d = some 0 := by
+  obtain ⟨b, ds, h1, h2, h3⟩ := Dec.natToBytes_spec v.natAbs
+  have hb : Dec.isDigit b = true := h2 b (List.mem_cons_self ..)
+  have hv' : Dec.dval 0 (b :: ds) ≤ Dec.MAXSIG := by rw [h3]; exact hv
+  refine ⟨Dec.normalize (.fin (decide (v < 0)) v.natAbs 0), ?_, ?_⟩
+  · simp only [toDecimal, Json.intToBytes]
+    by_cases hneg : v < 0
+    · simp only [hneg, if_true, h1, Dec.parse_minus_digit_head b ds hb, Dec.parseNumber_int_text true b ds h2 hv', h3]
+      simp
+    · simp only [hneg, if_false, h1, Dec.parse_digit_head b ds hb, Dec.parseNumber_int_text false b ds h2 hv', h3]
+      simp
+  · exact Dec.cmp_zero_trans (Dec.cmp_ofInt v) (Dec.cmp_normalize' _ _ 0)
+
+/-! ### floats built by `F64.mk` -/
+namespace F64
+
+theorem stripTwos_spec : ∀ (fuel m : Nat) (e : Int),
+    ∃ k : Nat, stripTwos fuel m e = ((stripTwos fuel m e).1, e + k) ∧ m = (stripTwos fuel m e).1 * 2 ^ k
+  | 0, m, e => ⟨0, by simp [stripTwos]⟩
+  | fuel + 1, m, e => by
+    unfold stripTwos
+    split
+    · next h =>
+      obtain ⟨k, h1, h2⟩ := stripTwos_spec fuel (m / 2) (e + 1)
+      refine ⟨k + 1, ?_, ?_⟩
+      · rw [h1]; simp only [Prod.mk.injEq, true_and]; omega
+      · rw [Nat.pow_succ, ← Nat.mul_assoc, ← h2]; omega
+    · exact ⟨0, by simp⟩
+
+theorem stripTwos_done : ∀ (fuel m : Nat) (e : Int), m ≠ 0 → m < 2 ^ fuel → (stripTwos fuel m e).1 % 2 = 1
+  | 0, m, e, h0, h => by simp at h; omega
+  | fuel + 1, m, e, h0, h => by
+    unfold stripTwos
+    split
+    · next hc =>
+      apply stripTwos_done fuel (m / 2) (e + 1)
+      · omega
+      · rw [Nat.pow_succ] at h; omega
+    · next hc => simp only; omega
+
+/-- `mk` keeps the value and normalises: `m·2^e = m'·2^(e+k)` with `m'` odd -/
+theorem mk_spec (n : Bool) (m : Nat) (e : Int) (hm : m ≠ 0) :
+    ∃ m' k : Nat, mk n m e = .fin n m' (e + k) ∧ m = m' * 2 ^ k ∧ m' % 2 = 1 := by
+  obtain ⟨k, h1, h2⟩ := stripTwos_spec (Nat.log2 m + 1) m e
+  have h3 := stripTwos_done (Nat.log2 m + 1) m e hm Nat.lt_log2_self
+  refine ⟨_, k, ?_, h2, h3⟩
+  simp only [mk, hm, if_false]
+  rw [h1]
+
+theorem mk_odd (n : Bool) (m : Nat) (e : Int) : (mk n m e).Odd := by
+  by_cases hm : m = 0
+  · subst hm; simp [mk, Odd]
+  · obtain ⟨m', k, h1, _, h3⟩ := mk_spec n m e hm
+    rw [h1]; exact .inl h3
+
+/-- **the float holding the integer `v`** (`v·2^0`, any `v ≤ MAXSIG`, in particular `v < 2^53`) converts to a
+    decimal of value `v` -/
+theorem toDec_mk_int (n : Bool) (v : Nat) (hv : v ≤ Dec.MAXSIG) :
+    Dec.cmp (Dec.ofInt (Dec.intVal n v)) (toDec (mk n v 0)) = some 0 := by
+  by_cases hm : v = 0
+  · subst hm
+    simp only [mk, if_true, toDec, Dec.ofBinary]
+    unfold Dec.intVal
+    cases n <;> simp [Dec.ofInt, Dec.cmp_zero_zero]
+  · obtain ⟨m', k, h1, h2, _⟩ := mk_spec n v 0 hm
+    rw [h1]
+    have hk : ((0 : Int) + (k : Int)).toNat = k := by omega
+    have := toDec_value_int n m' (0 + k) (by omega) (by rw [hk, ← h2]; exact hv)
+    rw [hk, ← h2] at this
+    exact this
+
+/-- a dyadic fraction `m·2^(-k)` is the decimal `m·5^k·10^(-k)` -/
+theorem toDec_dyadic (n : Bool) (m k : Nat) (hk : 0 < k) (hx : m * 5 ^ k ≤ Dec.MAXSIG) (hlo : k ≤ 6176) :
+    Dec.cmp (toDec (.fin n m (-(k : Int)))) (.fin n (m * 5 ^ k) (-(k : Int))) = some 0 := by
+  have h1 : (-(-(k : Int))).toNat = k := by omega
+  rw [toDec_neg_exp n m (-(k : Int)) (by omega) (by rw [h1]; exact hx) (by unfold Dec.EMIN; omega), h1]
+  exact Dec.cmp_normalize _ _ _
+
+end F64
+
+/-! ### decimal arithmetic respects the value of its operands (when the exact result fits the format) -/
+namespace Dec
+
+/-- the exact value `c·10^e` fits the format after moving trailing zeros into the exponent -/
+def Fits (c : Nat) (e : Int) : Prop :=
+  c = 0 ∨ ∃ c0 j : Nat, c = c0 * 10 ^ j ∧ c0 ≠ 0 ∧ c0 ≤ MAXSIG ∧ EMIN ≤ e + j ∧ e + j ≤ EMAX
+
+theorem reduce_of_fits (n : Bool) (c : Nat) (e : Int) (h : Fits c e) :
+    reduce n c e false = normalize (.fin n c e) := by
+  rcases h with h | ⟨c0, j, h1, h2, h3, h4, h5⟩
+  · subst h; simp [reduce, normalize_zero]
+  · rw [h1, reduce_zeros n c0 j e h2 h3 h4 h5, normalize_shift]
+
+/-- both not finite (the evaluator reports "not a number" for either), or finite-or-infinite of equal value -/
+def Same (a b : Dec) : Prop := (a.isSpecial = true ∧ b.isSpecial = true) ∨ cmp a b = some 0
+
+theorem sval_zero (n : Bool) (e m : Int) : sval n 0 e m = 0 := by simp [sval]
+
+theorem sval_signed (s : Int) (e m : Int) :
+    sval (decide (s < 0)) s.natAbs e m = s * ((10 ^ (e - m).toNat : Nat) : Int) := by
+  unfold sval pow10
+  rw [Int.natCast_mul]
+  by_cases h : s < 0
+  · simp only [h, decide_true, if_true]
+    have : (s.natAbs : Int) = -s := by omega
+    rw [this, Int.neg_mul, Int.neg_mul, Int.one_mul, Int.neg_neg]
+  · simp only [h, decide_false, Bool.false_eq_true, if_false]
+    have : (s.natAbs : Int) = s := by omega
+    rw [this]; simp
+
+theorem cmpFin_coeff_zero {n1 c1 e1 n2 c2 e2} (h : cmpFin n1 c1 e1 n2 c2 e2 = 0) : c1 = 0 ↔ c2 = 0 := by
+  rw [cmpFin_eq_zero_iff] at h
+  simp only [sval, pow10] at h
+  have hp1 : 0 < 10 ^ (e1 - min e1 e2).toNat := Nat.pow_pos (by decide)
+  have hp2 : 0 < 10 ^ (e2 - min e1 e2).toNat := Nat.pow_pos (by decide)
+  generalize 10 ^ (e1 - min e1 e2).toNat = p1 at *
+  generalize 10 ^ (e2 - min e1 e2).toNat = p2 at *
+  have hz1 : c1 * p1 = 0 ↔ c1 = 0 := by
+    constructor
+    · intro h; rcases Nat.mul_eq_zero.mp h with h | h <;> omega
+    · intro h; simp [h]
+  have hz2 : c2 * p2 = 0 ↔ c2 = 0 := by
+    constructor
+    · intro h; rcases Nat.mul_eq_zero.mp h with h | h <;> omega
+    · intro h; simp [h]
+  revert h; cases n1 <;> cases n2 <;> simp <;> omega
+
+theorem cmpFin_sign_eq {n1 c1 e1 n2 c2 e2} (h : cmpFin n1 c1 e1 n2 c2 e2 = 0) (hc : c1 ≠ 0) : n1 = n2 := by
+  have hc2 : c2 ≠ 0 := fun h2 => hc ((cmpFin_coeff_zero h).mpr h2)
+  rw [cmpFin_eq_zero_iff] at h
+  simp only [sval, pow10] at h
+  have hp1 : 0 < c1 * 10 ^ (e1 - min e1 e2).toNat := Nat.mul_pos (Nat.pos_of_ne_zero hc) (Nat.pow_pos (by decide))
+  have hp2 : 0 < c2 * 10 ^ (e2 - min e1 e2).toNat := Nat.mul_pos (Nat.pos_of_ne_zero hc2) (Nat.pow_pos (by decide))
+  generalize c1 * 10 ^ (e1 - min e1 e2).toNat = X at h hp1
+  generalize c2 * 10 ^ (e2 - min e1 e2).toNat = Y at h hp2
+  revert h; cases n1 <;> cases n2 <;> simp <;> omega
+
+/-- absolute values of the scaled coefficients agree -/
+theorem cmpFin_abs_eq {n1 c1 e1 n2 c2 e2} (h : cmpFin n1 c1 e1 n2 c2 e2 = 0) (m : Int) (h1 : m ≤ e1) (h2 : m ≤ e2) :
+    c1 * 10 ^ (e1 - m).toNat = c2 * 10 ^ (e2 - m).toNat := by
+  rw [cmpFin_eq_zero_iff_value _ _ _ _ _ _ m h1 h2] at h
+  simp only [sval, pow10] at h
+  generalize c1 * 10 ^ (e1 - m).toNat = X at h ⊢
+  generalize c2 * 10 ^ (e2 - m).toNat = Y at h ⊢
+  revert h; cases n1 <;> cases n2 <;> simp <;> omega
+
+/-! #### addition / subtraction -/
+
+/-- the exact, unrounded sum -/
+def addRaw : Dec → Dec → Dec
+  | .fin n1 c1 e1, .fin n2 c2 e2 =>
+    .fin (decide (sval n1 c1 e1 (min e1 e2) + sval n2 c2 e2 (min e1 e2) < 0))
+      (sval n1 c1 e1 (min e1 e2) + sval n2 c2 e2 (min e1 e2)).natAbs (min e1 e2)
+  | _, _ => .nan
+
+/-- the exact sum fits the format -/
+def AddFits : Dec → Dec → Prop
+  | .fin n1 c1 e1, .fin n2 c2 e2 =>
+    Fits (sval n1 c1 e1 (min e1 e2) + sval n2 c2 e2 (min e1 e2)).natAbs (min e1 e2)
+  | _, _ => True
+
+theorem addFin_raw (n1 : Bool) (c1 : Nat) (e1 : Int) (n2 : Bool) (c2 : Nat) (e2 : Int)
+    (hf : AddFits (.fin n1 c1 e1) (.fin n2 c2 e2)) :
+    cmp (addFin n1 c1 e1 n2 c2 e2) (addRaw (.fin n1 c1 e1) (.fin n2 c2 e2)) = some 0 := by
+  simp only [addRaw]
+  simp only [AddFits] at hf
+  unfold addFin
+  by_cases h1 : c1 = 0
+  · subst h1
+    simp only [if_true, sval_zero, Int.zero_add]
+    by_cases h2 : c2 = 0
+    · subst h2; simp only [if_true, sval_zero]; exact cmp_zero_zero ..
+    · simp only [h2, if_false]
+      refine cmp_zero_trans (cmp_normalize ..) ?_
+      simp only [cmp, Option.some.injEq]
+      rw [cmpFin_eq_zero_iff_value _ _ _ _ _ _ (min e1 e2) (by omega) (by omega), sval_signed]
+      simp
+  · simp only [h1, if_false]
+    by_cases h2 : c2 = 0
+    · subst h2
+      simp only [if_true, sval_zero, Int.add_zero]
+      refine cmp_zero_trans (cmp_normalize ..) ?_
+      simp only [cmp, Option.some.injEq]
+      rw [cmpFin_eq_zero_iff_value _ _ _ _ _ _ (min e1 e2) (by omega) (by omega), sval_signed]
+      simp
+    · simp only [h2, if_false]
+      show cmp (if sval n1 c1 e1 (min e1 e2) + sval n2 c2 e2 (min e1 e2) = 0 then Dec.fin false 0 0
+        else reduce (decide (sval n1 c1 e1 (min e1 e2) + sval n2 c2 e2 (min e1 e2) < 0))
+          (sval n1 c1 e1 (min e1 e2) + sval n2 c2 e2 (min e1 e2)).natAbs (min e1 e2)) _ = some 0
+      generalize sval n1 c1 e1 (min e1 e2) + sval n2 c2 e2 (min e1 e2) = s at hf ⊢
+      by_cases hs : s = 0
+      · subst hs; simp only [if_true]; exact cmp_zero_zero ..
+      · simp only [hs, if_false]
+        rw [reduce_of_fits _ _ _ hf]
+        exact cmp_normalize ..
+
+theorem isSpecial_of_cmp_zero_left {a b : Dec} (h : cmp a b = some 0) (ha : a.isSpecial = true) : a = b := by
+  cases a with
+  | nan => simp [cmp_nan_left] at h
+  | inf n => cases b with
+    | nan => simp [cmp] at h
+    | inf m => cases n <;> cases m <;> simp [cmp] at h ⊢
+    | fin m c e => cases n <;> simp [cmp] at h
+  | fin n c e => simp [isSpecial] at ha
+
+theorem fin_of_cmp_zero_fin {n c e} {b : Dec} (h : cmp (.fin n c e) b = some 0) : ∃ n' c' e', b = .fin n' c' e' := by
+  cases b with
+  | nan => simp [cmp] at h
+  | inf m => cases m <;> simp [cmp] at h
+  | fin n' c' e' => exact ⟨_, _, _, rfl⟩
+
+theorem addRaw_congr {n1 c1 e1 n2 c2 e2 n1' c1' e1' n2' c2' e2'}
+    (ha : cmpFin n1 c1 e1 n1' c1' e1' = 0) (hb : cmpFin n2 c2 e2 n2' c2' e2' = 0) :
+    cmp (addRaw (.fin n1 c1 e1) (.fin n2 c2 e2)) (addRaw (.fin n1' c1' e1') (.fin n2' c2' e2')) = some 0 := by
+  simp only [addRaw, cmp, Option.some.injEq]
+  let m := min (min e1 e2) (min e1' e2')
+  have hm1 : m ≤ min e1 e2 := by omega
+  have hm2 : m ≤ min e1' e2' := by omega
+  rw [cmpFin_eq_zero_iff_value _ _ _ _ _ _ m hm1 hm2, sval_signed, sval_signed, Int.add_mul, Int.add_mul,
+    ← sval_shift n1 c1 e1 (min e1 e2) m hm1 (by omega), ← sval_shift n2 c2 e2 (min e1 e2) m hm1 (by omega),
+    ← sval_shift n1' c1' e1' (min e1' e2') m hm2 (by omega), ← sval_shift n2' c2' e2' (min e1' e2') m hm2 (by omega),
+    (cmpFin_eq_zero_iff_value _ _ _ _ _ _ m (by omega) (by omega)).mp ha,
+    (cmpFin_eq_zero_iff_value _ _ _ _ _ _ m (by omega) (by omega)).mp hb]
+
+/-- **`Add` respects the value of its operands** -/
+theorem add_congr {a a' b b' : Dec} (ha : cmp a a' = some 0) (hb : cmp b b' = some 0)
+    (hf : AddFits a b) (hf' : AddFits a' b') : Same (add a b) (add a' b') := by
+  cases a with
+  | nan => simp [cmp_nan_left] at ha
+  | inf n =>
+    have := isSpecial_of_cmp_zero_left ha rfl
+    subst this
+    cases b with
+    | nan => simp [cmp_nan_left] at hb
+    | inf m =>
+      have := isSpecial_of_cmp_zero_left hb rfl
+      subst this
+      left; simp only [add]; split <;> exact ⟨rfl, rfl⟩
+    | fin m c e =>
+      obtain ⟨m', c', e', rfl⟩ := fin_of_cmp_zero_fin hb
+      left; exact ⟨rfl, rfl⟩
+  | fin n1 c1 e1 =>
+    obtain ⟨n1', c1', e1', rfl⟩ := fin_of_cmp_zero_fin ha
+    cases b with
+    | nan => simp [cmp_nan_left] at hb
+    | inf m =>
+      have := isSpecial_of_cmp_zero_left hb rfl
+      subst this
+      left; exact ⟨rfl, rfl⟩
+    | fin n2 c2 e2 =>
+      obtain ⟨n2', c2', e2', rfl⟩ := fin_of_cmp_zero_fin hb
+      right
+      simp only [add]
+      simp only [cmp, Option.some.injEq] at ha hb
+      exact cmp_zero_trans (addFin_raw _ _ _ _ _ _ hf)
+        (cmp_zero_trans (addRaw_congr ha hb) (cmp_zero_symm (addFin_raw _ _ _ _ _ _ hf')))
+
+theorem cmpFin_neg {n1 c1 e1 n2 c2 e2} (h : cmpFin n1 c1 e1 n2 c2 e2 = 0) : cmpFin (!n1) c1 e1 (!n2) c2 e2 = 0 := by
+  rw [cmpFin_eq_zero_iff] at h ⊢
+  rw [sval_neg, sval_neg, h]
+
+/-- **`Sub` respects the value of its operands** (exactness: that of `a + (-b)`) -/
+theorem sub_congr {a a' b b' : Dec} (ha : cmp a a' = some 0) (hb : cmp b b' = some 0)
+    (hf : AddFits a (neg b)) (hf' : AddFits a' (neg b')) : Same (sub a b) (sub a' b') := by
+  cases a with
+  | nan => simp [cmp_nan_left] at ha
+  | inf n =>
+    have := isSpecial_of_cmp_zero_left ha rfl
+    subst this
+    cases b with
+    | nan => simp [cmp_nan_left] at hb
+    | inf m =>
+      have := isSpecial_of_cmp_zero_left hb rfl
+      subst this
+      left; simp only [sub]; split <;> exact ⟨rfl, rfl⟩
+    | fin m c e =>
+      obtain ⟨m', c', e', rfl⟩ := fin_of_cmp_zero_fin hb
+      left; exact ⟨rfl, rfl⟩
+  | fin n1 c1 e1 =>
+    obtain ⟨n1', c1', e1', rfl⟩ := fin_of_cmp_zero_fin ha
+    cases b with
+    | nan => simp [cmp_nan_left] at hb
+    | inf m =>
+      have := isSpecial_of_cmp_zero_left hb rfl
+      subst this
+      left; exact ⟨rfl, rfl⟩
+    | fin n2 c2 e2 =>
+      obtain ⟨n2', c2', e2', rfl⟩ := fin_of_cmp_zero_fin hb
+      right
+      simp only [cmp, Option.some.injEq] at ha hb
+      have hz1 := cmpFin_coeff_zero ha
+      have hz2 := cmpFin_coeff_zero hb
+      simp only [sub]
+      by_cases h0 : c1 = 0 ∧ c2 = 0
+      · have h0' : c1' = 0 ∧ c2' = 0 := ⟨hz1.mp h0.1, hz2.mp h0.2⟩
+        simp only [h0, h0', and_self, if_true]; exact cmp_zero_zero ..
+      · have h0' : ¬ (c1' = 0 ∧ c2' = 0) := fun h => h0 ⟨hz1.mpr h.1, hz2.mpr h.2⟩
+        simp only [h0, h0', if_false]
+        simp only [neg] at hf hf'
+        exact cmp_zero_trans (addFin_raw _ _ _ _ _ _ hf)
+          (cmp_zero_trans (addRaw_congr ha (cmpFin_neg hb)) (cmp_zero_symm (addFin_raw _ _ _ _ _ _ hf')))
+
+/-! #### multiplication -/
+
+/-- the exact product fits the format -/
+def MulFits : Dec → Dec → Prop
+  | .fin _ c1 e1, .fin _ c2 e2 => Fits (c1 * c2) (e1 + e2)
+  | _, _ => True
+
+theorem mul_raw (n1 : Bool) (c1 : Nat) (e1 : Int) (n2 : Bool) (c2 : Nat) (e2 : Int)
+    (hf : MulFits (.fin n1 c1 e1) (.fin n2 c2 e2)) :
+    cmp (mul (.fin n1 c1 e1) (.fin n2 c2 e2)) (.fin (n1 != n2) (c1 * c2) (e1 + e2)) = some 0 := by
+  simp only [mul]
+  split
+  · next h =>
+    have : c1 * c2 = 0 := by rcases h with h | h <;> simp [h]
+    rw [this]; exact cmp_zero_zero ..
+  · rw [reduce_of_fits _ _ _ hf]; exact cmp_normalize ..
+
+theorem sval_mul (n1 : Bool) (c1 : Nat) (e1 : Int) (n2 : Bool) (c2 : Nat) (e2 m1 m2 : Int) (h1 : m1 ≤ e1) (h2 : m2 ≤ e2) :
+    sval (n1 != n2) (c1 * c2) (e1 + e2) (m1 + m2) = sval n1 c1 e1 m1 * sval n2 c2 e2 m2 := by
+  unfold sval pow10
+  have : (e1 + e2 - (m1 + m2)).toNat = (e1 - m1).toNat + (e2 - m2).toNat := by omega
+  rw [this, Nat.pow_add, Nat.mul_mul_mul_comm, Int.natCast_mul]
+  generalize ((c1 * 10 ^ (e1 - m1).toNat : Nat) : Int) = X
+  generalize ((c2 * 10 ^ (e2 - m2).toNat : Nat) : Int) = Y
+  cases n1 <;> cases n2 <;> simp [Int.mul_neg, Int.neg_mul]
+
+theorem mulRaw_congr {n1 c1 e1 n2 c2 e2 n1' c1' e1' n2' c2' e2'}
+    (ha : cmpFin n1 c1 e1 n1' c1' e1' = 0) (hb : cmpFin n2 c2 e2 n2' c2' e2' = 0) :
+    cmp (.fin (n1 != n2) (c1 * c2) (e1 + e2)) (.fin (n1' != n2') (c1' * c2') (e1' + e2')) = some 0 := by
+  simp only [cmp, Option.some.injEq]
+  rw [cmpFin_eq_zero_iff_value _ _ _ _ _ _ (min e1 e1' + min e2 e2') (by omega) (by omega),
+    sval_mul _ _ _ _ _ _ _ _ (by omega) (by omega), sval_mul _ _ _ _ _ _ _ _ (by omega) (by omega),
+    (cmpFin_eq_zero_iff_value _ _ _ _ _ _ (min e1 e1') (by omega) (by omega)).mp ha,
+    (cmpFin_eq_zero_iff_value _ _ _ _ _ _ (min e2 e2') (by omega) (by omega)).mp hb]
+
+/-- **`Mul` respects the value of its operands** -/
+theorem mul_congr {a a' b b' : Dec} (ha : cmp a a' = some 0) (hb : cmp b b' = some 0)
+    (hf : MulFits a b) (hf' : MulFits a' b') : Same (mul a b) (mul a' b') := by
+  cases a with
+  | nan => simp [cmp_nan_left] at ha
+  | inf n =>
+    have := isSpecial_of_cmp_zero_left ha rfl
+    subst this
+    cases b with
+    | nan => simp [cmp_nan_left] at hb
+    | inf m =>
+      have := isSpecial_of_cmp_zero_left hb rfl
+      subst this
+      left; exact ⟨rfl, rfl⟩
+    | fin m c e =>
+      obtain ⟨m', c', e', rfl⟩ := fin_of_cmp_zero_fin hb
+      left; simp only [mul]; constructor <;> split <;> rfl
+  | fin n1 c1 e1 =>
+    obtain ⟨n1', c1', e1', rfl⟩ := fin_of_cmp_zero_fin ha
+    cases b with
+    | nan => simp [cmp_nan_left] at hb
+    | inf m =>
+      have := isSpecial_of_cmp_zero_left hb rfl
+      subst this
+      left; simp only [mul]; constructor <;> split <;> rfl
+    | fin n2 c2 e2 =>
+      obtain ⟨n2', c2', e2', rfl⟩ := fin_of_cmp_zero_fin hb
+      right
+      simp only [cmp, Option.some.injEq] at ha hb
+      exact cmp_zero_trans (mul_raw _ _ _ _ _ _ hf)
+        (cmp_zero_trans (mulRaw_congr ha hb) (cmp_zero_symm (mul_raw _ _ _ _ _ _ hf')))
+
+/-! #### integer division and remainder (`QuoRem`) -/
+
+/-- aligned coefficients of a finite pair -/
+def alignL (c1 : Nat) (e1 e2 : Int) : Nat := c1 * pow10 (e1 - min e1 e2).toNat
+def alignR (c2 : Nat) (e1 e2 : Int) : Nat := c2 * pow10 (e2 - min e1 e2).toNat
+
+/-- the exact integer quotient fits the format -/
+def IDivFits : Dec → Dec → Prop
+  | .fin _ c1 e1, .fin _ c2 e2 => Fits (alignL c1 e1 e2 / alignR c2 e1 e2) 0
+  | _, _ => True
+
+/-- the exact remainder fits the format -/
+def ModFits : Dec → Dec → Prop
+  | .fin _ c1 e1, .fin _ c2 e2 => Fits (alignL c1 e1 e2 % alignR c2 e1 e2) (min e1 e2)
+  | _, _ => True
+
+theorem quoRem_fin (n1 : Bool) (c1 : Nat) (e1 : Int) (n2 : Bool) (c2 : Nat) (e2 : Int) (h1 : c1 ≠ 0) (h2 : c2 ≠ 0) :
+    quoRem (.fin n1 c1 e1) (.fin n2 c2 e2) =
+      (reduce (n1 != n2) (alignL c1 e1 e2 / alignR c2 e1 e2) 0,
+       reduce n1 (alignL c1 e1 e2 % alignR c2 e1 e2) (min e1 e2)) := by
+  simp [quoRem, h1, h2, alignL, alignR]
+
+/-- aligning two equal-valued pairs gives proportional coefficients -/
+theorem align_prop {n1 c1 e1 n2 c2 e2 n1' c1' e1' n2' c2' e2'}
+    (ha : cmpFin n1 c1 e1 n1' c1' e1' = 0) (hb : cmpFin n2 c2 e2 n2' c2' e2' = 0) :
+    ∃ P P' : Nat, 0 < P ∧ 0 < P' ∧ alignL c1 e1 e2 * P = alignL c1' e1' e2' * P' ∧
+      alignR c2 e1 e2 * P = alignR c2' e1' e2' * P' ∧
+      P = 10 ^ (min e1 e2 - min (min e1 e2) (min e1' e2')).toNat ∧
+      P' = 10 ^ (min e1' e2' - min (min e1 e2) (min e1' e2')).toNat := by
+  refine ⟨_, _, Nat.pow_pos (by decide), Nat.pow_pos (by decide), ?_, ?_, rfl, rfl⟩
+  · have := cmpFin_abs_eq ha (min (min e1 e2) (min e1' e2')) (by omega) (by omega)
+    unfold alignL pow10
+    rw [Nat.mul_assoc, Nat.mul_assoc, ← Nat.pow_add, ← Nat.pow_add]
+    have h1 : (e1 - min e1 e2).toNat + (min e1 e2 - min (min e1 e2) (min e1' e2')).toNat =
+        (e1 - min (min e1 e2) (min e1' e2')).toNat := by omega
+    have h2 : (e1' - min e1' e2').toNat + (min e1' e2' - min (min e1 e2) (min e1' e2')).toNat =
+        (e1' - min (min e1 e2) (min e1' e2')).toNat := by omega
+    rw [h1, h2]; exact this
+  · have := cmpFin_abs_eq hb (min (min e1 e2) (min e1' e2')) (by omega) (by omega)
+    unfold alignR pow10
+    rw [Nat.mul_assoc, Nat.mul_assoc, ← Nat.pow_add, ← Nat.pow_add]
+    have h1 : (e2 - min e1 e2).toNat + (min e1 e2 - min (min e1 e2) (min e1' e2')).toNat =
+        (e2 - min (min e1 e2) (min e1' e2')).toNat := by omega
+    have h2 : (e2' - min e1' e2').toNat + (min e1' e2' - min (min e1 e2) (min e1' e2')).toNat =
+        (e2' - min (min e1 e2) (min e1' e2')).toNat := by omega
+    rw [h1, h2]; exact this
+
+/-- special-value and zero cases shared by `//` and `%` -/
+theorem quoRem_congr_aux {a a' b b' : Dec} (ha : cmp a a' = some 0) (hb : cmp b b' = some 0)
+    (sel : Dec × Dec → Dec) (hsel : sel = Prod.fst ∨ sel = Prod.snd)
+    (main : ∀ n1 c1 e1 n2 c2 e2 n1' c1' e1' n2' c2' e2', a = .fin n1 c1 e1 → b = .fin n2 c2 e2 →
+      a' = .fin n1' c1' e1' → b' = .fin n2' c2' e2' → c1 ≠ 0 → c2 ≠ 0 → c1' ≠ 0 → c2' ≠ 0 →
+      Same (sel (quoRem a b)) (sel (quoRem a' b'))) :
+    Same (sel (quoRem a b)) (sel (quoRem a' b')) := by
+  cases a with
+  | nan => simp [cmp_nan_left] at ha
+  | inf n =>
+    have := isSpecial_of_cmp_zero_left ha rfl
+    subst this
+    cases b with
+    | nan => simp [cmp_nan_left] at hb
+    | inf m =>
+      have := isSpecial_of_cmp_zero_left hb rfl
+      subst this
+      left; rcases hsel with rfl | rfl <;> exact ⟨rfl, rfl⟩
+    | fin m c e =>
+      obtain ⟨m', c', e', rfl⟩ := fin_of_cmp_zero_fin hb
+      left; rcases hsel with rfl | rfl <;> exact ⟨rfl, rfl⟩
+  | fin n1 c1 e1 =>
+    obtain ⟨n1', c1', e1', rfl⟩ := fin_of_cmp_zero_fin ha
+    cases b with
+    | nan => simp [cmp_nan_left] at hb
+    | inf m =>
+      have := isSpecial_of_cmp_zero_left hb rfl
+      subst this
+      right
+      simp only [cmp, Option.some.injEq] at ha
+      rcases hsel with rfl | rfl
+      · simp only [quoRem]; exact cmp_zero_zero ..
+      · simp only [quoRem]
+        exact cmp_zero_trans (cmp_normalize ..) (cmp_zero_trans (by simpa [cmp] using ha) (cmp_normalize' ..))
+    | fin n2 c2 e2 =>
+      obtain ⟨n2', c2', e2', rfl⟩ := fin_of_cmp_zero_fin hb
+      have ha' := ha
+      have hb' := hb
+      simp only [cmp, Option.some.injEq] at ha' hb'
+      have hz1 := cmpFin_coeff_zero ha'
+      have hz2 := cmpFin_coeff_zero hb'
+      by_cases h2 : c2 = 0
+      · have h2' := hz2.mp h2
+        subst h2; subst h2'
+        left
+        by_cases h1 : c1 = 0
+        · have h1' := hz1.mp h1
+          subst h1; subst h1'
+          rcases hsel with rfl | rfl <;> exact ⟨rfl, rfl⟩
+        · have h1' : c1' ≠ 0 := fun h => h1 (hz1.mpr h)
+          rcases hsel with rfl | rfl <;> simp [quoRem, h1, h1', isSpecial]
+      · have h2' : c2' ≠ 0 := fun h => h2 (hz2.mpr h)
+        by_cases h1 : c1 = 0
+        · have h1' := hz1.mp h1
+          subst h1; subst h1'
+          right
+          rcases hsel with rfl | rfl <;> simp only [quoRem, h2, h2', if_false, if_true] <;> exact cmp_zero_zero ..
+        · have h1' : c1' ≠ 0 := fun h => h1 (hz1.mpr h)
+          exact main _ _ _ _ _ _ _ _ _ _ _ _ rfl rfl rfl rfl h1 h2 h1' h2'
+
+/-- **`//` respects the value of its operands** -/
+theorem idiv_congr {a a' b b' : Dec} (ha : cmp a a' = some 0) (hb : cmp b b' = some 0)
+    (hf : IDivFits a b) (hf' : IDivFits a' b') : Same (quoRem a b).1 (quoRem a' b').1 := by
+  apply quoRem_congr_aux ha hb Prod.fst (.inl rfl)
+  intro n1 c1 e1 n2 c2 e2 n1' c1' e1' n2' c2' e2' ea eb ea' eb' h1 h2 h1' h2'
+  subst ea; subst eb; subst ea'; subst eb'
+  simp only [cmp, Option.some.injEq] at ha hb
+  simp only [IDivFits] at hf hf'
+  right
+  rw [quoRem_fin _ _ _ _ _ _ h1 h2, quoRem_fin _ _ _ _ _ _ h1' h2', reduce_of_fits _ _ _ hf, reduce_of_fits _ _ _ hf']
+  obtain ⟨P, P', hP, hP', hA, hB, _, _⟩ := align_prop ha hb
+  have hq : alignL c1 e1 e2 / alignR c2 e1 e2 = alignL c1' e1' e2' / alignR c2' e1' e2' := by
+    rw [← Nat.mul_div_mul_right _ _ hP, hA, hB, Nat.mul_div_mul_right _ _ hP']
+  rw [hq, cmpFin_sign_eq ha h1, cmpFin_sign_eq hb h2]
+  exact cmp_self (by cases h : normalize (.fin (n1' != n2') (alignL c1' e1' e2' / alignR c2' e1' e2') 0) <;>
+    simp_all [normalize] <;> split at h <;> simp at h)
+
+/-- **`%` respects the value of its operands** -/
+theorem mod_congr {a a' b b' : Dec} (ha : cmp a a' = some 0) (hb : cmp b b' = some 0)
+    (hf : ModFits a b) (hf' : ModFits a' b') : Same (quoRem a b).2 (quoRem a' b').2 := by
+  apply quoRem_congr_aux ha hb Prod.snd (.inr rfl)
+  intro n1 c1 e1 n2 c2 e2 n1' c1' e1' n2' c2' e2' ea eb ea' eb' h1 h2 h1' h2'
+  subst ea; subst eb; subst ea'; subst eb'
+  simp only [cmp, Option.some.injEq] at ha hb
+  simp only [ModFits] at hf hf'
+  right
+  rw [quoRem_fin _ _ _ _ _ _ h1 h2, quoRem_fin _ _ _ _ _ _ h1' h2', reduce_of_fits _ _ _ hf, reduce_of_fits _ _ _ hf']
+  obtain ⟨P, P', hP, hP', hA, hB, eP, eP'⟩ := align_prop ha hb
+  have hr : alignL c1 e1 e2 % alignR c2 e1 e2 * P = alignL c1' e1' e2' % alignR c2' e1' e2' * P' := by
+    rw [← Nat.mul_mod_mul_right, hA, hB, Nat.mul_mod_mul_right]
+  refine cmp_zero_trans (cmp_normalize ..) (cmp_zero_trans ?_ (cmp_normalize' ..))
+  simp only [cmp, Option.some.injEq]
+  rw [cmpFin_eq_zero_iff_value _ _ _ _ _ _ (min (min e1 e2) (min e1' e2')) (by omega) (by omega)]
+  simp only [sval, pow10]
+  rw [← eP, ← eP', hr, cmpFin_sign_eq ha h1]
+
+/-! #### division -/
+
+/-- the quotient is exact (the scaled dividend is a multiple of the divisor's coefficient) and fits the format -/
+def QuoFits : Dec → Dec → Prop
+  | .fin _ c1 e1, .fin _ c2 e2 =>
+    (c1 * 10 ^ (40 + ndigits c2)) % c2 = 0 ∧
+      Fits ((c1 * 10 ^ (40 + ndigits c2)) / c2) (e1 - e2 - ((40 + ndigits c2 : Nat) : Int))
+  | _, _ => True
+
+theorem quo_raw (n1 : Bool) (c1 : Nat) (e1 : Int) (n2 : Bool) (c2 : Nat) (e2 : Int) (h1 : c1 ≠ 0) (h2 : c2 ≠ 0)
+    (hf : QuoFits (.fin n1 c1 e1) (.fin n2 c2 e2)) :
+    cmp (quo (.fin n1 c1 e1) (.fin n2 c2 e2))
+      (.fin (n1 != n2) ((c1 * 10 ^ (40 + ndigits c2)) / c2) (e1 - e2 - ((40 + ndigits c2 : Nat) : Int))) = some 0 := by
+  simp only [QuoFits] at hf
+  simp only [quo, h1, h2, if_false, quoFin, pow10, hf.1, bne_self_eq_false]
+  rw [reduce_of_fits _ _ _ hf.2]
+  exact cmp_normalize ..
+
+theorem pow_rel {q q' X X' d d' : Nat} (h : q * 10 ^ X = q' * 10 ^ X') (hd : d + X' = d' + X) :
+    q * 10 ^ d = q' * 10 ^ d' := by
+  have hp : 0 < 10 ^ X' := Nat.pow_pos (by decide)
+  apply Nat.eq_of_mul_eq_mul_right hp
+  rw [Nat.mul_assoc, ← Nat.pow_add, hd, Nat.pow_add, ← Nat.mul_assoc, Nat.mul_right_comm, h,
+    Nat.mul_right_comm]
+
+theorem quoRaw_congr {n1 c1 e1 n2 c2 e2 n1' c1' e1' n2' c2' e2'} {q q' k k' : Nat}
+    (ha : cmpFin n1 c1 e1 n1' c1' e1' = 0) (hb : cmpFin n2 c2 e2 n2' c2' e2' = 0)
+    (h1 : c1 ≠ 0) (h2 : c2 ≠ 0) (hq : q * c2 = c1 * 10 ^ k) (hq' : q' * c2' = c1' * 10 ^ k') :
+    cmp (.fin (n1 != n2) q (e1 - e2 - (k : Int))) (.fin (n1' != n2') q' (e1' - e2' - (k' : Int))) = some 0 := by
+  have hC1 := cmpFin_abs_eq ha (min e1 e1') (by omega) (by omega)
+  have hC2 := cmpFin_abs_eq hb (min e2 e2') (by omega) (by omega)
+  generalize ha1 : (e1 - min e1 e1').toNat = a1 at hC1
+  generalize ha1' : (e1' - min e1 e1').toNat = a1' at hC1
+  generalize ha2 : (e2 - min e2 e2').toNat = a2 at hC2
+  generalize ha2' : (e2' - min e2 e2').toNat = a2' at hC2
+  -- q·10^(a1+k'+a2') = q'·10^(a1'+k+a2)
+  have hX : q * 10 ^ (a1 + k' + a2') = q' * 10 ^ (a1' + k + a2) := by
+    have hpos : 0 < c2 * 10 ^ a2 := Nat.mul_pos (Nat.pos_of_ne_zero h2) (Nat.pow_pos (by decide))
+    apply Nat.eq_of_mul_eq_mul_right hpos
+    have l : q * 10 ^ (a1 + k' + a2') * (c2 * 10 ^ a2) = (c1 * 10 ^ a1) * 10 ^ (k + k' + a2 + a2') := by
+      calc q * 10 ^ (a1 + k' + a2') * (c2 * 10 ^ a2)
+          = (q * c2) * (10 ^ (a1 + k' + a2') * 10 ^ a2) := by rw [Nat.mul_mul_mul_comm]
+        _ = (c1 * 10 ^ k) * (10 ^ (a1 + k' + a2') * 10 ^ a2) := by rw [hq]
+        _ = c1 * (10 ^ k * (10 ^ (a1 + k' + a2') * 10 ^ a2)) := by rw [Nat.mul_assoc]
+        _ = c1 * (10 ^ a1 * 10 ^ (k + k' + a2 + a2')) := by
+            rw [← Nat.pow_add, ← Nat.pow_add, ← Nat.pow_add]; congr 2; omega
+        _ = (c1 * 10 ^ a1) * 10 ^ (k + k' + a2 + a2') := by rw [Nat.mul_assoc]
+    have r : q' * 10 ^ (a1' + k + a2) * (c2 * 10 ^ a2) = (c1' * 10 ^ a1') * 10 ^ (k + k' + a2 + a2') := by
+      calc q' * 10 ^ (a1' + k + a2) * (c2 * 10 ^ a2)
+          = q' * 10 ^ (a1' + k + a2) * (c2' * 10 ^ a2') := by rw [hC2]
+        _ = (q' * c2') * (10 ^ (a1' + k + a2) * 10 ^ a2') := by rw [Nat.mul_mul_mul_comm]
+        _ = (c1' * 10 ^ k') * (10 ^ (a1' + k + a2) * 10 ^ a2') := by rw [hq']
+        _ = c1' * (10 ^ k' * (10 ^ (a1' + k + a2) * 10 ^ a2')) := by rw [Nat.mul_assoc]
+        _ = c1' * (10 ^ a1' * 10 ^ (k + k' + a2 + a2')) := by
+            rw [← Nat.pow_add, ← Nat.pow_add, ← Nat.pow_add]; congr 2; omega
+        _ = (c1' * 10 ^ a1') * 10 ^ (k + k' + a2 + a2') := by rw [Nat.mul_assoc]
+    rw [l, r, hC1]
+  simp only [cmp, Option.some.injEq]
+  rw [cmpFin_eq_zero_iff]
+  simp only [sval, pow10]
+  rw [cmpFin_sign_eq ha h1, cmpFin_sign_eq hb h2]
+  congr 2
+  exact pow_rel hX (by omega)
+
+/-- **`Quo` respects the value of its operands** (when both quotients are exact) -/
+theorem quo_congr {a a' b b' : Dec} (ha : cmp a a' = some 0) (hb : cmp b b' = some 0)
+    (hf : QuoFits a b) (hf' : QuoFits a' b') : Same (quo a b) (quo a' b') := by
+  cases a with
+  | nan => simp [cmp_nan_left] at ha
+  | inf n =>
+    have := isSpecial_of_cmp_zero_left ha rfl
+    subst this
+    cases b with
+    | nan => simp [cmp_nan_left] at hb
+    | inf m =>
+      have := isSpecial_of_cmp_zero_left hb rfl
+      subst this
+      left; exact ⟨rfl, rfl⟩
+    | fin m c e =>
+      obtain ⟨m', c', e', rfl⟩ := fin_of_cmp_zero_fin hb
+      left; exact ⟨rfl, rfl⟩
+  | fin n1 c1 e1 =>
+    obtain ⟨n1', c1', e1', rfl⟩ := fin_of_cmp_zero_fin ha
+    cases b with
+    | nan => simp [cmp_nan_left] at hb
+    | inf m =>
+      have := isSpecial_of_cmp_zero_left hb rfl
+      subst this
+      right; simp only [quo]; exact cmp_zero_zero ..
+    | fin n2 c2 e2 =>
+      obtain ⟨n2', c2', e2', rfl⟩ := fin_of_cmp_zero_fin hb
+      simp only [cmp, Option.some.injEq] at ha hb
+      have hz1 := cmpFin_coeff_zero ha
+      have hz2 := cmpFin_coeff_zero hb
+      by_cases h2 : c2 = 0
+      · have h2' := hz2.mp h2
+        subst h2; subst h2'
+        left
+        by_cases h1 : c1 = 0
+        · have h1' := hz1.mp h1
+          subst h1; subst h1'
+          exact ⟨rfl, rfl⟩
+        · have h1' : c1' ≠ 0 := fun h => h1 (hz1.mpr h)
+          simp [quo, h1, h1', isSpecial]
+      · have h2' : c2' ≠ 0 := fun h => h2 (hz2.mpr h)
+        right
+        by_cases h1 : c1 = 0
+        · have h1' := hz1.mp h1
+          subst h1; subst h1'
+          simp only [quo, h2, h2', if_false, if_true]; exact cmp_zero_zero ..
+        · have h1' : c1' ≠ 0 := fun h => h1 (hz1.mpr h)
+          refine cmp_zero_trans (quo_raw _ _ _ _ _ _ h1 h2 hf)
+            (cmp_zero_trans ?_ (cmp_zero_symm (quo_raw _ _ _ _ _ _ h1' h2' hf')))
+          simp only [QuoFits] at hf hf'
+          exact quoRaw_congr ha hb h1 h2 (Nat.div_mul_cancel (Nat.dvd_of_mod_eq_zero hf.1))
+            (Nat.div_mul_cancel (Nat.dvd_of_mod_eq_zero hf'.1))
+
+end Dec
+
+/-! ### binary64 arithmetic on small integers is exact (the float path of the arithmetic operators) -/
+namespace F64
+
+theorem strip_unique2 : ∀ (a b m' m'' : Nat), m' % 2 = 1 → m'' % 2 = 1 → m' * 2 ^ a = m'' * 2 ^ b → a = b ∧ m' = m''
+  | 0, 0, m', m'', _, _, h => by simpa using h
+  | 0, b + 1, m', m'', h1, _, h => by
+    rw [Nat.pow_succ, ← Nat.mul_assoc] at h; simp at h; omega
+  | a + 1, 0, m', m'', _, h2, h => by
+    rw [Nat.pow_succ, ← Nat.mul_assoc] at h; simp at h; omega
+  | a + 1, b + 1, m', m'', h1, h2, h => by
+    rw [Nat.pow_succ, Nat.pow_succ, ← Nat.mul_assoc, ← Nat.mul_assoc] at h
+    have := strip_unique2 a b m' m'' h1 h2 (Nat.eq_of_mul_eq_mul_right (by decide) h)
+    omega
+
+theorem mk_of (n : Bool) (m m' k : Nat) (e : Int) (hodd : m' % 2 = 1) (h : m = m' * 2 ^ k) :
+    mk n m e = .fin n m' (e + k) := by
+  have hm : m ≠ 0 := by
+    intro h0; rw [h0] at h
+    have : 0 < m' * 2 ^ k := Nat.mul_pos (by omega) (Nat.pow_pos (by decide))
+    omega
+  obtain ⟨m'', k', h1, h2, h3⟩ := mk_spec n m e hm
+  have := strip_unique2 k' k m'' m' h3 hodd (h2.symm.trans h)
+  rw [h1, this.1, this.2]
+
+/-- powers of two may be moved between significand and exponent -/
+theorem mk_shift (n : Bool) (m j : Nat) (e : Int) : mk n (m * 2 ^ j) (e - j) = mk n m e := by
+  by_cases hm : m = 0
+  · subst hm; simp [mk]
+  · obtain ⟨m', k, h1, h2, h3⟩ := mk_spec n m e hm
+    rw [h1, mk_of n (m * 2 ^ j) m' (k + j) (e - j) h3 (by rw [h2, Nat.pow_add, Nat.mul_assoc])]
+    congr 1; omega
+
+theorem log2_one : Nat.log2 1 = 0 := by decide
+
+/-- **`roundPos` is exact on integers that fit in 53 bits** -/
+theorem roundPos_exact (neg : Bool) (num : Nat) (h0 : num ≠ 0) (h : num < 2 ^ 53) :
+    roundPos neg num 1 = mk neg num 0 := by
+  have hL : Nat.log2 num < 53 := (Nat.log2_lt h0).mpr h
+  have hlo : 2 ^ Nat.log2 num ≤ num := Nat.log2_self_le h0
+  have hhi : num < 2 ^ (Nat.log2 num + 1) := Nat.lt_log2_self
+  unfold roundPos
+  simp only [h0, if_false, log2_one]
+  generalize Nat.log2 num = L at hL hlo hhi ⊢
+  -- the scaled significand
+  have hq1 : 2 ^ 52 ≤ num * 2 ^ (52 - L) := by
+    have : 2 ^ 52 = 2 ^ L * 2 ^ (52 - L) := by rw [← Nat.pow_add]; congr 1; omega
+    rw [this]; exact Nat.mul_le_mul_right _ hlo
+  have hq2 : num * 2 ^ (52 - L) < 2 ^ 53 := by
+    have : 2 ^ 53 = 2 ^ (L + 1) * 2 ^ (52 - L) := by rw [← Nat.pow_add]; congr 1; omega
+    rw [this]; exact Nat.mul_lt_mul_of_pos_right hhi (Nat.pow_pos (by decide))
+  have he0 : (if ((L : Int) - ((0 : Nat) : Int) - 52) < -1074 then (-1074 : Int) else (L : Int) - ((0 : Nat) : Int) - 52)
+      = (L : Int) - 52 := by
+    rw [if_neg (by omega)]; omega
+  have hfix : fixExp 6 num 1 ((L : Int) - 52) = (L : Int) - 52 := by
+    unfold fixExp
+    simp only
+    by_cases hge : (L : Int) - 52 ≥ 0
+    · have hL52 : L = 52 := by omega
+      subst hL52
+      simp only [hge, if_true]
+      have : ((52 : Nat) : Int) - 52 = 0 := by omega
+      rw [this]
+      simp only [Int.toNat_zero, Nat.pow_zero, Nat.mul_one, Nat.div_one]
+      simp only [Nat.sub_self, Nat.pow_zero, Nat.mul_one] at hq1 hq2
+      rw [if_neg (by omega), if_neg (by omega)]
+    · simp only [hge, if_false, Nat.div_one]
+      have : (-((L : Int) - 52)).toNat = 52 - L := by omega
+      rw [this, if_neg (by omega), if_neg (by omega)]
+  rw [he0, hfix]
+  by_cases hge : (L : Int) - 52 ≥ 0
+  · have hL52 : L = 52 := by omega
+    subst hL52
+    have : ((52 : Nat) : Int) - 52 = 0 := by omega
+    rw [this]
+    simp [Nat.mod_one]
+  · have hneg : (-((L : Int) - 52)).toNat = 52 - L := by omega
+    simp only [hge, if_false, hneg, Nat.div_one, Nat.mod_one]
+    have h1 : ¬ (2 * 0 > 1 ∨ 2 * 0 = 1 ∧ num * 2 ^ (52 - L) % 2 = 1) := by omega
+    simp only [h1, if_false]
+    rw [if_neg (by omega), if_neg (by omega)]
+    have := mk_shift neg num (52 - L) 0
+    have h2 : (0 : Int) - ((52 - L : Nat) : Int) = (L : Int) - 52 := by omega
+    rw [h2] at this
+    exact this
+
+/-- the float holding the integer `a` -/
+def ofInt (a : Int) : F64 := mk (decide (a < 0)) a.natAbs 0
+
+theorem ofInt_zero : ofInt 0 = .fin false 0 0 := by simp [ofInt, mk]
+
+theorem ofInt_spec (a : Int) (ha : a ≠ 0) :
+    ∃ m k : Nat, ofInt a = .fin (decide (a < 0)) m (k : Int) ∧ a.natAbs = m * 2 ^ k ∧ m % 2 = 1 := by
+  obtain ⟨m, k, h1, h2, h3⟩ := mk_spec (decide (a < 0)) a.natAbs 0 (by omega)
+  exact ⟨m, k, by rw [ofInt, h1]; simp, h2, h3⟩
+
+theorem toDec_ofInt (a : Int) (ha : a.natAbs ≤ Dec.MAXSIG) : Dec.cmp (Dec.ofInt a) (toDec (ofInt a)) = some 0 := by
+  have := toDec_mk_int (decide (a < 0)) a.natAbs ha
+  have hv : Dec.intVal (decide (a < 0)) a.natAbs = a := by
+    unfold Dec.intVal; by_cases h : a < 0 <;> simp [h] <;> omega
+  rw [hv] at this
+  exact this
+
+theorem two53_le_MAXSIG : 2 ^ 53 ≤ Dec.MAXSIG := by decide
+
+/-- sign and magnitude of an integer as the model's floats carry them -/
+theorem signed_natAbs (s : Int) : Dec.intVal (decide (s < 0)) s.natAbs = s := by
+  unfold Dec.intVal; by_cases h : s < 0 <;> simp [h] <;> omega
+
+/-- **exactness bridge, `+`**: the binary64 sum of two integers whose sum fits in 53 bits is the float holding the
+    exact sum -/
+theorem add_ofInt (a b : Int) (h : (a + b).natAbs < 2 ^ 53) : add (ofInt a) (ofInt b) = ofInt (a + b) := by
+  by_cases ha : a = 0
+  · subst ha
+    by_cases hb : b = 0
+    · subst hb; simp [ofInt_zero, add, addFin]
+    · obtain ⟨m, k, h1, h2, h3⟩ := ofInt_spec b hb
+      simp only [Int.zero_add] at h ⊢
+      rw [ofInt_zero, h1]
+      have hm : m ≠ 0 := by omega
+      simp only [add, addFin, hm, and_false, if_false]
+      have hmin : min (0 : Int) (k : Int) = 0 := by omega
+      simp only [hmin]
+      have h00 : ((0 : Int) - 0).toNat = 0 := by omega
+      have hk0 : ((k : Int) - 0).toNat = k := by omega
+      simp only [h00, hk0, Nat.pow_zero, Nat.mul_one, Int.natCast_zero, Int.mul_zero, Int.zero_add,
+        ← h2]
+      have hs : (if decide (b < 0) = true then (-1 : Int) else 1) * (b.natAbs : Int) = b := by
+        by_cases hb' : b < 0 <;> simp [hb'] <;> omega
+      rw [hs]
+      simp only [hb, if_false, ge_iff_le, Int.le_refl, if_true, Int.toNat_zero, Nat.pow_zero, Nat.mul_one]
+      rw [roundPos_exact _ _ (by omega) h]; exact h1
+  · obtain ⟨m1, k1, ha1, ha2, ha3⟩ := ofInt_spec a ha
+    by_cases hb : b = 0
+    · subst hb
+      simp only [Int.add_zero] at h ⊢
+      rw [ofInt_zero, ha1]
+      have hm : m1 ≠ 0 := by omega
+      simp only [add, addFin, hm, false_and, if_false]
+      have hmin : min (k1 : Int) (0 : Int) = 0 := by omega
+      simp only [hmin]
+      have h00 : ((0 : Int) - 0).toNat = 0 := by omega
+      have hk0 : ((k1 : Int) - 0).toNat = k1 := by omega
+      simp only [h00, hk0, Nat.pow_zero, Nat.mul_one, Int.natCast_zero, Int.mul_zero, Int.add_zero,
+        ← ha2]
+      have hs : (if decide (a < 0) = true then (-1 : Int) else 1) * (a.natAbs : Int) = a := by
+        by_cases ha' : a < 0 <;> simp [ha'] <;> omega
+      rw [hs]
+      simp only [ha, if_false, ge_iff_le, Int.le_refl, if_true, Int.toNat_zero, Nat.pow_zero, Nat.mul_one]
+      rw [roundPos_exact _ _ (by omega) h]; exact ha1
+    · obtain ⟨m2, k2, hb1, hb2, hb3⟩ := ofInt_spec b hb
+      rw [ha1, hb1]
+      have hm1 : m1 ≠ 0 := by omega
+      simp only [add, addFin, hm1, false_and, if_false]
+      -- value at the common exponent e = min k1 k2: (a + b) = s * 2^e
+      generalize he : min (k1 : Int) (k2 : Int) = e
+      have he0 : 0 ≤ e := by omega
+      have hs1 : (if decide (a < 0) = true then (-1 : Int) else 1) * ((m1 * 2 ^ ((k1 : Int) - e).toNat : Nat) : Int) *
+          ((2 ^ e.toNat : Nat) : Int) = a := by
+        rw [Int.mul_assoc, ← Int.natCast_mul, Nat.mul_assoc, ← Nat.pow_add]
+        have : ((k1 : Int) - e).toNat + e.toNat = k1 := by omega
+        rw [this, ← ha2]
+        by_cases ha' : a < 0 <;> simp [ha'] <;> omega
+      have hs2 : (if decide (b < 0) = true then (-1 : Int) else 1) * ((m2 * 2 ^ ((k2 : Int) - e).toNat : Nat) : Int) *
+          ((2 ^ e.toNat : Nat) : Int) = b := by
+        rw [Int.mul_assoc, ← Int.natCast_mul, Nat.mul_assoc, ← Nat.pow_add]
+        have : ((k2 : Int) - e).toNat + e.toNat = k2 := by omega
+        rw [this, ← hb2]
+        by_cases hb' : b < 0 <;> simp [hb'] <;> omega
+      generalize (if decide (a < 0) = true then (-1 : Int) else 1) * ((m1 * 2 ^ ((k1 : Int) - e).toNat : Nat) : Int) = A
+        at hs1 ⊢
+      generalize (if decide (b < 0) = true then (-1 : Int) else 1) * ((m2 * 2 ^ ((k2 : Int) - e).toNat : Nat) : Int) = B
+        at hs2 ⊢
+      have hsum : (A + B) * ((2 ^ e.toNat : Nat) : Int) = a + b := by rw [Int.add_mul, hs1, hs2]
+      have hP : (0 : Int) < ((2 ^ e.toNat : Nat) : Int) := Int.natCast_pos.mpr (Nat.pow_pos (by decide))
+      by_cases hz : A + B = 0
+      · have : a + b = 0 := by rw [← hsum, hz, Int.zero_mul]
+        simp only [hz, if_true, this, ofInt_zero]
+      · simp only [hz, if_false, ge_iff_le, he0, if_true]
+        have hne : a + b ≠ 0 := by
+          intro h0; rw [h0] at hsum
+          rcases Int.mul_eq_zero.mp hsum with h | h <;> omega
+        have hsign : decide (A + B < 0) = decide (a + b < 0) := by
+          have : A + B < 0 ↔ a + b < 0 := by
+            rw [← hsum]
+            constructor
+            · intro h; exact Int.mul_neg_of_neg_of_pos h hP
+            · intro h
+              apply Classical.byContradiction
+              intro hn
+              have : 0 ≤ (A + B) * ((2 ^ e.toNat : Nat) : Int) := Int.mul_nonneg (by omega) (by omega)
+              omega
+          simp only [this]
+        have habs : (A + B).natAbs * 2 ^ e.toNat = (a + b).natAbs := by
+          rw [← hsum, Int.natAbs_mul, Int.natAbs_natCast]
+        rw [hsign, habs, roundPos_exact _ _ (by omega) h]; rfl
+
+theorem neg_ofInt (b : Int) (hb : b ≠ 0) : neg (ofInt b) = ofInt (-b) := by
+  obtain ⟨m, k, h1, h2, h3⟩ := mk_spec (decide (b < 0)) b.natAbs 0 (by omega)
+  have e1 : ofInt b = .fin (decide (b < 0)) m (0 + k) := h1
+  have e2 : ofInt (-b) = .fin (decide (-b < 0)) m (0 + k) := by
+    unfold ofInt
+    rw [Int.natAbs_neg]
+    exact mk_of _ _ m k 0 h3 h2
+  rw [e1, e2]
+  simp only [neg]
+  congr 1
+  by_cases h : b < 0
+  · simp [h]; omega
+  · simp [h]; omega
+
+theorem add_ofInt_negzero (a : Int) (h : a.natAbs < 2 ^ 53) : add (ofInt a) (.fin true 0 0) = ofInt a := by
+  by_cases ha : a = 0
+  · subst ha; simp [ofInt_zero, add, addFin]
+  · obtain ⟨m1, k1, ha1, ha2, ha3⟩ := ofInt_spec a ha
+    rw [ha1]
+    have hm : m1 ≠ 0 := by omega
+    simp only [add, addFin, hm, false_and, if_false]
+    have hmin : min (k1 : Int) (0 : Int) = 0 := by omega
+    simp only [hmin]
+    have h00 : ((0 : Int) - 0).toNat = 0 := by omega
+    have hk0 : ((k1 : Int) - 0).toNat = k1 := by omega
+    simp only [h00, hk0, Nat.pow_zero, Nat.mul_one, Int.natCast_zero, Int.mul_zero, Int.add_zero, ← ha2]
+    have hs : (if decide (a < 0) = true then (-1 : Int) else 1) * (a.natAbs : Int) = a := by
+      by_cases ha' : a < 0 <;> simp [ha'] <;> omega
+    rw [hs]
+    simp only [ha, if_false, ge_iff_le, Int.le_refl, if_true, Int.toNat_zero, Nat.pow_zero, Nat.mul_one]
+    rw [roundPos_exact _ _ (by omega) h]; exact ha1
+
+/-- **exactness bridge, `-`** -/
+theorem sub_ofInt (a b : Int) (h : (a - b).natAbs < 2 ^ 53) : sub (ofInt a) (ofInt b) = ofInt (a - b) := by
+  unfold sub
+  by_cases hb : b = 0
+  · subst hb
+    simp only [Int.sub_zero] at h ⊢
+    rw [ofInt_zero]
+    exact add_ofInt_negzero a h
+  · rw [neg_ofInt b hb, Int.sub_eq_add_neg]
+    exact add_ofInt a (-b) (by rw [← Int.sub_eq_add_neg]; exact h)
+
+/-- **exactness bridge, `*`** (non-zero factors; a zero factor gives `±0`, see `mul_ofInt_value`) -/
+theorem mul_ofInt (a b : Int) (ha : a ≠ 0) (hb : b ≠ 0) (h : (a * b).natAbs < 2 ^ 53) :
+    mul (ofInt a) (ofInt b) = ofInt (a * b) := by
+  obtain ⟨m1, k1, ha1, ha2, ha3⟩ := ofInt_spec a ha
+  obtain ⟨m2, k2, hb1, hb2, hb3⟩ := ofInt_spec b hb
+  rw [ha1, hb1]
+  have hm1 : m1 ≠ 0 := by omega
+  have hm2 : m2 ≠ 0 := by omega
+  have he : ((k1 : Int) + (k2 : Int)) ≥ 0 := by omega
+  simp only [mul, hm1, hm2, or_self, if_false, he, if_true]
+  have hk : ((k1 : Int) + (k2 : Int)).toNat = k1 + k2 := by omega
+  have hprod : m1 * m2 * 2 ^ (k1 + k2) = (a * b).natAbs := by
+    rw [Int.natAbs_mul, ha2, hb2, Nat.pow_add, Nat.mul_mul_mul_comm]
+  rw [hk, hprod, roundPos_exact _ _ (by
+    have := Int.mul_ne_zero ha hb
+    omega) h]
+  unfold ofInt
+  congr 1
+  have hab : a * b < 0 ↔ ((a < 0) ≠ (b < 0)) := by
+    constructor
+    · intro hlt
+      by_cases h1 : a < 0 <;> by_cases h2 : b < 0 <;> simp [h1, h2]
+      · have : 0 < a * b := Int.mul_pos_of_neg_of_neg h1 h2
+        omega
+      · have : 0 ≤ a * b := Int.mul_nonneg (by omega) (by omega)
+        omega
+    · intro hne
+      by_cases h1 : a < 0 <;> by_cases h2 : b < 0 <;> simp [h1, h2] at hne
+      · exact Int.mul_neg_of_neg_of_pos h1 (by omega)
+      · exact Int.mul_neg_of_pos_of_neg (by omega) h2
+  by_cases h1 : a < 0 <;> by_cases h2 : b < 0 <;> simp [h1, h2] at hab ⊢ <;> omega
+
+/-- the binary64 product of two integers whose product fits in 53 bits (in particular `|a|, |b| < 2^26`) has the
+    value of the exact product -/
+theorem mul_ofInt_value (a b : Int) (h : (a * b).natAbs < 2 ^ 53) :
+    Dec.cmp (Dec.ofInt (a * b)) (toDec (mul (ofInt a) (ofInt b))) = some 0 := by
+  by_cases ha : a = 0
+  · subst ha
+    rw [ofInt_zero, Int.zero_mul]
+    cases hb : ofInt b with
+    | nan => unfold ofInt mk at hb; split at hb <;> cases hb
+    | inf n => unfold ofInt mk at hb; split at hb <;> cases hb
+    | fin n m e =>
+      simp only [mul, true_or, if_true, toDec, Dec.ofBinary]
+      exact Dec.cmp_zero_zero ..
+  · by_cases hb : b = 0
+    · subst hb
+      rw [ofInt_zero, Int.mul_zero]
+      cases ha' : ofInt a with
+      | nan => unfold ofInt mk at ha'; split at ha' <;> cases ha'
+      | inf n => unfold ofInt mk at ha'; split at ha' <;> cases ha'
+      | fin n m e =>
+        simp only [mul, or_true, if_true, toDec, Dec.ofBinary]
+        exact Dec.cmp_zero_zero ..
+    · rw [mul_ofInt a b ha hb h]
+      exact toDec_ofInt _ (by have := two53_le_MAXSIG; omega)
+
+theorem natAbs_mul_lt_of_lt_two26 {a b : Int} (ha : a.natAbs < 2 ^ 26) (hb : b.natAbs < 2 ^ 26) :
+    (a * b).natAbs < 2 ^ 53 := by
+  rw [Int.natAbs_mul]
+  have : a.natAbs * b.natAbs ≤ 2 ^ 26 * 2 ^ 26 := Nat.mul_le_mul (by omega) (by omega)
+  have : (2 : Nat) ^ 26 * 2 ^ 26 < 2 ^ 53 := by decide
+  omega
+
+end F64
 end Jmes
